@@ -28,12 +28,15 @@ RULE = ('E-hist: BFS from the initial interpreter state over a menu of %d real A
         'the segno.* module globals + shared argument objects + previously returned objects; every call\'s observation compared with the same '
         'call made first thing in a fresh interpreter (3 hash seeds); plus ALL explicit histories of length <= n. E-sched: ALL schedules with '
         '<= p preemptions of two real threads (settrace baton scheduler; line / call / opcode granularity) for a set of operation pairs, both '
-        'results compared with the sequential references, each failing schedule replayed twice. E-space: re-encoding every C02 / C04-boundary '
+        'results compared with the sequential references, each failing schedule replayed twice; at "shared" granularity the scheduling points are '
+        'exactly the bytecode instructions that access module-level mutable state or names rebound with `global` (partial-order reduction). '
+        'Long histories: several thousand different small make() calls in 2-3 orders, each call must give the same result in every order. E-space: re-encoding every C02 / C04-boundary '
         'configuration with the reported version, level and mask reproduces the matrix.' % len(O.OPS))
-BOUNDS = {'quick': 'histories n <= 2 (all ordered pairs); schedules p <= 1 at line granularity for 3 encoder pairs and at call granularity for 2 encoder + 6 serializer / automatic-mask pairs (for the four same-operation pairs only thread 0 is preempted in the quick tier)',
+BOUNDS = {"quick": "histories n <= 2 (all ordered pairs) + the same ~5900 calls in two orders; schedules p <= 1 at line granularity for 3 encoder pairs and 2 shared-symbol pairs, at call granularity for 2 encoder + 4 serializer pairs, at line granularity restricted to helpers.py for 5 helper pairs; p <= 2 at shared-access granularity for 4 pairs and p <= 1 for 11 more (for the same-operation pairs only thread 0 is preempted in the quick tier)",
           'thorough': 'histories n <= 3 on a 22-operation core menu (n <= 2 on all); p <= 1 at line granularity for all small pairs, at call '
                       'granularity for 6 large pairs, at opcode granularity for 2 pairs; p <= 2 for (fail_mode || make M1) at line and '
-                      '(fail_mode || save ppm) at call granularity'}
+                      '(fail_mode || save ppm) at call granularity; p <= 2 at shared-access granularity for 15 pairs and at line granularity '
+                      'restricted to helpers.py for 5 helper pairs; the same ~8300 calls in three orders'}
 ASSUMPTIONS = ['preemption inside C-level calls is impossible under the GIL; more than two threads are not explored',
                'every schedule is executed in a forked copy of a process that never ran a library operation, i.e. from the initial state',
                'state the canonicaliser cannot see (C-level globals) is covered only by the explicit histories, not by the self-loop argument',
@@ -52,6 +55,13 @@ PAIRS_SAVE = [('ppm_small_a', 'ppm_small_b'), ('png_small', 'svg_small'), ('seq_
 # explored by the other pairs): the helper factories' own state
 PAIRS_FILE = [('helper_epc', 'helper_epc_b', 'helpers.py'), ('helper_mecard', 'helper_mecard_b', 'helpers.py'), ('helper_wifi', 'helper_wifi_b', 'helpers.py'),
               ('helper_vcard', 'helper_vcard_b', 'helpers.py'), ('helper_email', 'helper_geo', 'helpers.py')]
+# pairs explored at 'shared' granularity (mc/sched.py): scheduling points are exactly the bytecode instructions that access module-level
+# mutable state or names rebound with `global` - a partial-order reduction that keeps whole-symbol operations affordable with p = 2
+PAIRS_SHARED = [('iter_verbose_v2_a', 'iter_verbose_v2_b', 2), ('seq_small', 'make_q_auto', 2), ('make_7_version', 'make_8_version', 2), ('make_m1_numeric', 'make_m1_other', 2),
+                ('make_2_align', 'make_7_version', 1), ('make_m3_kanji', 'make_1h', 1), ('seq_small', 'seq_version', 1),
+                ('save_png_colorful', 'save_svg_colorful', 1), ('save_ppm_colormap', 'save_png_palette', 1), ('make_hanzi', 'make_eci', 1),
+                ('helper_epc', 'helper_epc_b', 1), ('matrix_iter_verbose', 'iter_verbose_v2_a', 1), ('cli_terminal', 'make_parts', 1),
+                ('make_1h', 'make_1h_other', 1), ('save_pdf', 'save_eps', 1)]
 PAIRS_LARGE = [('save_ppm_colormap', 'save_ppm_colormap_b'), ('save_png_palette', 'save_svg'),
                ('seq_count', 'make_m2_alnum'), ('save_png_colorful', 'make_m1_numeric'), ('make_m2_alnum', 'fail_overflow')]
 SAME_SHAPE = {('make_m1_numeric', 'make_m1_other'), ('ppm_small_a', 'ppm_small_b'), ('iter_verbose_v2_a', 'iter_verbose_v2_b'), ('make_1h', 'make_1h_other')}
@@ -264,7 +274,11 @@ def plan_schedules(tier):
         plan.append((a, b, 'line' if (not q or i in (0, 2, 4)) else 'call', 1))
     for (a, b) in PAIRS_SAVE:
         heavy = (a, b) in (('make_1h', 'make_1h_other'), ('iter_verbose_v2_a', 'iter_verbose_v2_b'))
+        if q and heavy:
+            continue            # quick tier: these two are explored at 'shared' granularity only (below); thorough: also at call granularity
         plan.append((a, b, 'line' if ((not q and not heavy) or (a, b) in PROLOGUE) else 'call', 1))
+    for (a, b, bound) in PAIRS_SHARED:
+        plan.append((a, b, 'shared', bound if q else 2))
     for (a, b, fname) in PAIRS_FILE:
         plan.append((a, b, 'line@' + fname, 1 if q else 2))
     if not q:
@@ -433,6 +447,8 @@ def main(tier, seed, jobs, t0):
                 acc.violation('thread-unstable/%s+%s' % (a, b), 'pair (%s, %s): even the two non-preemptive schedules disagree with the sequential '
                               'references or with each other (steps %r)' % (a, b, steps), ('sched', a, b, gran, 0, []))
             steps = tuple(max(x, y) for x, y in zip(steps, _s2))
+            if min(steps) == 0:
+                raise runner.CheckerError('pair %s/%s at %s granularity: a thread has no scheduling point (%r) - nothing would be explored' % (a, b, gran, steps))
             allsch = list(sched.schedules(steps, bound))
             if q and (a, b) in SAME_SHAPE:
                 # quick tier: both threads run the same operation on different data; only thread 0 is preempted (the mirrored half is
